@@ -9,6 +9,7 @@ from vlib.runner import Eval
 
 ID = "C04"
 LEVEL = "exploration"
+CGF_RUNS = {"thorough": 6000}  # coverage-guided stage (vlib/cgf.py): libFuzzer executions per worker, 16 workers
 RULE = (
     "Rules with one or two $not nodes in a drawn position (leading, inner, trailing, repeated with times, nested in $or/$and/$and_any_order, a double negation $not[$not[X]], operand "
     "position) built around a site of a generated listing; the argument X is drawn from: a decoy (X fails at the site), the description of the site "
